@@ -5,8 +5,15 @@ CONSTANTS
   MaxSend = 4
   Wall = {}
   MaxPublish = 0
+  Handles = {}
+  GCaps = {1}
+  SplitCommit = FALSE
   PendingWithoutWake = TRUE
+  SkipBudget = 0
+  BudgetSelfWake = FALSE
   ClockAsCoded = FALSE
+  FloodLens = {}
+  FloodCap = 1
   KeepHist = FALSE
   AtomicPolls = FALSE
 INVARIANTS
